@@ -360,6 +360,15 @@ func c11RunSession(st *VStream, stats *VStats, r *VRand, bitLen int, nsets int, 
 			name = string(b)
 			stats.Inc("dm.probe.outside_alphabet")
 		}
+		{ // queried names are ASCII (a pattern with a non-ASCII byte may have seeded the probe)
+			b := []byte(name)
+			for i := range b {
+				if b[i] >= 0x80 {
+					b[i] = 'z'
+				}
+			}
+			name = string(b)
+		}
 		norm := strings.ToLower(strings.TrimSuffix(name, "."))
 		hits := []string{}
 		for i, re := range regs {
